@@ -57,6 +57,34 @@ def run(ctx, ck) -> None:
             lit = k[3] if k[2] == ('attr', S, 'method') else k[2]
             if lit[0] == 'const':
                 branches[eval(lit[1])] = rt[2]
+    # table dispatch: {'name': self._kernel, ...} looked up with self.method (subscript or .get)
+    for d in [n for n in ast.walk(get_func) if isinstance(n, ast.Dict)]:
+        entries = {}
+        for k, v in zip(d.keys, d.values):
+            vt = term(v) if v is not None else None
+            if isinstance(k, ast.Constant) and isinstance(k.value, str) and vt is not None and vt[0] == 'attr' and vt[1] == S:
+                entries[k.value] = vt[2]
+        if not entries or len(entries) != len(d.keys):
+            continue
+        # the name the table is bound to (or the literal itself) must be indexed by self.method somewhere in the function
+        holder = None
+        up = getattr(d, '_parent', None)
+        if isinstance(up, (ast.Assign, ast.AnnAssign)):
+            tg = up.targets[0] if isinstance(up, ast.Assign) else up.target
+            holder = tg.id if isinstance(tg, ast.Name) else None
+        looked_up = False
+        for n in ast.walk(get_func):
+            base = None
+            key = None
+            if isinstance(n, ast.Subscript):
+                base, key = n.value, n.slice
+            elif isinstance(n, ast.Call) and isinstance(n.func, ast.Attribute) and n.func.attr == 'get' and n.args:
+                base, key = n.func.value, n.args[0]
+            if base is not None and (base is d or (holder and isinstance(base, ast.Name) and base.id == holder)) and term(key) == ('attr', S, 'method'):
+                looked_up = True
+        if looked_up:
+            for k, v in entries.items():
+                branches.setdefault(k, v)
     live: dict[str, ast.FunctionDef] = {}
     for m in methods:
         target = branches.get(m)
@@ -66,24 +94,24 @@ def run(ctx, ck) -> None:
         if isinstance(fn, ast.FunctionDef):
             live[m] = fn
     I = ('var', init.args.args[0].arg)
+    from ..terms import raise_paths
+
     raises = [p for p in function_paths(init) if p.exit == 'raise' and exception_name(p.node) == 'ValueError']
-    rc = [[(term(e), pol) for e, pol in p.conds()] for p in raises]
-    bad_method = any((('cmp', 'notin', ('var', 'method'), ('attr', I, 'METHODS')), True) in c for c in rc)
+    rfacts = [fs for fs, _e, _p in raise_paths(init, 'ValueError')]
+    bad_method = any(('in', ('var', 'method'), ('attr', I, 'METHODS'), False) in fs for fs in rfacts)
     ck.expect('Z1', bad_method, init, 'a method outside METHODS is refused', 'an unknown evaluation method is no longer refused at construction', instance='unknown method')
 
     # ------------------------------------------------------------------ Z2 validation
     starts = ('call', ('attr', ('var', 'method'), 'startswith'), (('const', "'overlap_'"),), ())
-    g_fft_method = any((('cmp', 'isnot', ('var', 'fft_size'), ('const', 'None')), True) in c and (starts, False) in c for c in rc)
+    g_fft_method = any(('isnot', frozenset({('var', 'fft_size'), ('const', 'None')})) in fs and ('truth', starts, False) in fs for fs in rfacts)
     ck.expect('Z2', g_fft_method, init, 'an fft_size given with a non-overlap method is refused', 'an fft_size with a non-overlap method is no longer refused', instance='fft_size needs overlap method')
     g_small = False
     band_t = None
-    for p in raises:
-        e = path_env(p)
-        for ex, pol in p.conds():
-            t = term(ex, e)
-            if pol and t[0] == 'cmp' and t[1] == 'lt' and t[2] == ('var', 'fft_size'):
+    for fs in rfacts:
+        for f in fs:
+            if f[0] == 'lt' and f[1] == ('var', 'fft_size'):
                 g_small = True
-                band_t = t[3]
+                band_t = f[2]
     ck.expect('Z2', g_small, init, 'an fft_size below the number of bands is refused', 'an fft_size smaller than the band count is no longer refused', instance='fft_size >= band count')
     first_store = next((i for i, st in enumerate(init.body) if isinstance(st, ast.Assign) and any(isinstance(t, ast.Attribute) for t in st.targets)), len(init.body))
     last_raise = max((i for i, st in enumerate(init.body) if any(isinstance(n, ast.Raise) for n in ast.walk(st))), default=-1)
